@@ -55,6 +55,9 @@ type job struct {
 	// Gen: the generation of the input computed in this run (see fProg); the given
 	// files are always of generation 0.
 	Gen int `json:"gen,omitempty"`
+	// Many > 0: the many-shard history (many.go) with that many shards; ManyRuns runs.
+	Many     int `json:"many,omitempty"`
+	ManyRuns int `json:"many_runs,omitempty"`
 	// Tries > 1 (fault-free runs only): a failed run is repeated, on a fresh copy of the
 	// same files, up to Tries times; only a run that fails every time is reported as
 	// failed (an overloaded machine makes the in-process cluster lose tasks).
@@ -104,6 +107,7 @@ type result struct {
 	Flaky    []string        `json:"flaky,omitempty"` // errors of attempts that were repeated
 	Hang     bool            `json:"hang,omitempty"`
 	Dump     string          `json:"dump,omitempty"`
+	Many     *manyObs        `json:"many,omitempty"`
 }
 
 const hangAfter = 120 * time.Second
@@ -311,7 +315,12 @@ func inspect(files map[string][]byte) (map[int]fileObs, []string) {
 	return out, extra
 }
 
+func nextTag() int64 { return atomic.AddInt64(&tagSeq, 1) }
+
 func runJob(j *job) *result {
+	if j.Many > 0 {
+		return runMany(j)
+	}
 	res := &result{ID: j.ID}
 	op := j.Prog.Op
 	if op == "read" {
